@@ -73,6 +73,10 @@ CHECKS = {
    tech="TLA+ spec Notebook.tla: TLC exhaustive over save histories from every initial notebook class; every transition executed by the real binary (wtf save / save-pipeline, isolated home); TLC trace validation of walker and random (hostile-argument) save sequences",
    text="TLC explores every sequence of up to 3/4 saves over 3 command strings x 2 field variants from missing, damaged, empty and populated notebooks and checks fidelity, untouched neighbours, replace-not-duplicate and that a reported failure changes nothing; each transition of the dumped graph is run as a real process and the notebook re-read with the repository's loader; random sequences use hostile argument strings through both sub-commands; TLC validates every recorded save: reported success implies the notebook is exactly replace-or-append of the expected entry, the entry is found by the next search, and the search database is main entries followed by notebook entries.",
    note="~5 ms per process; trusted: the expectation of how list flags split (encoding/csv)."),
+ "C09": dict(cat="fault_enumeration", ref="DESIGN.md section 5, C09",
+   tech="TLA+ spec AtomicWrite.tla (writer steps with crash/fail at every point; TLC exhaustive); the real process's system calls (strace) validated by TLC as a behaviour of the specification; enumeration of faults (write cut at every byte via RLIMIT_FSIZE, error/SIGKILL injected per system call) with TLC checking each outcome",
+   text="TLC explores every placement of a crash or failed step in the writer's step sequence and checks the visible content is always old or new and success only reported with the new content (the in-place writer is the defect switch). For the notebook (save, save-pipeline; absent/empty/1/25-entry) and the history (every search; absent/1/40-entry) the real binary's system calls on the file and its directory are recorded and validated against the specification, then the write is cut at every prefix length and every write/openat/rename/fsync/close call is made to fail or the process killed there; TLC checks each outcome: content old or new, loadable, no success message without effect.",
+   note="Needs strace (ptrace) and RLIMIT_FSIZE; quick tier tries every 9th prefix length."),
 }
 NOT_APPLICABLE = {}
 
